@@ -8,6 +8,7 @@ C11 oracle (at every restore): the rebuilt model equals the durable image that
 a trivial in-memory reference model recorded at checkpoint time.
 """
 import collections.abc
+import copy
 import json
 import os
 import random
@@ -369,10 +370,17 @@ class ModelWorld(engine.World):
       inputs.append(col.reshape(-1, 1))
     return inputs, plan
 
-  def _forward(self, inputs):
+  def _model_inputs(self, inputs):
     tf = self.tf
-    y = self.model([tf.constant(c) for c in inputs])
-    return np.asarray(y.numpy(), dtype=np.float64).reshape(len(inputs[0]), -1)
+    conv = getattr(self.builder, "to_model_inputs", None)
+    if conv is not None:
+      return conv(tf, [tf.constant(c) for c in inputs])
+    return [tf.constant(c) for c in inputs]
+
+  def _forward(self, inputs):
+    y = self.model(self._model_inputs(inputs))
+    y = np.asarray(y.numpy(), dtype=np.float64)
+    return y.reshape(y.shape[0], -1)
 
   # ------------------------------------------------------------- magnitude
   def _magnitude(self):
@@ -424,7 +432,12 @@ class ModelWorld(engine.World):
     n = 6
     base = self._base_points(es.sub("base"), n)
     inputs, plan = self._assemble(base, n, es.sub("asm"), k_random=2)
-    y = self.model([tf.constant(c) for c in inputs])
+    y = self.model(self._model_inputs(inputs))
+    if getattr(self.builder, "RAGGED", False):
+      # Rows are aggregated: only a regression-style hostile loss applies.
+      noise = es.normal(size=tuple(y.shape)).astype(np.float32)
+      return tf.reduce_sum(y * tf.constant(noise)) + es.choice(
+          [1.0, -1.0]) * tf.reduce_sum(y)
     y = tf.reshape(y, [len(inputs[0]), -1])
     loss = 0.0
     w_mono = es.uniform(0.5, 2.0)
@@ -511,6 +524,9 @@ class ModelWorld(engine.World):
 
   def _ev_fit(self, ev, ctx):
     tf, keras = self.tf, self.keras
+    if getattr(self.builder, "RAGGED", False):
+      ctx.count("noop:fit_on_ragged_model")
+      return
     es = rng_lib.Stream(ev["seed"], "fit")
     n = int(ev["n"])
     x = self._base_points(es.sub("x"), n)
@@ -813,6 +829,7 @@ class ModelWorld(engine.World):
       json.dump({"fmt": img["fmt"], "path": img["path"], "json": img["json"],
                  "x": xs, "out": out, "repo": env.repo_root(),
                  "rebuild": bool(rebuild), "spec": engine.jsonable(self.spec),
+                 "ragged": bool(getattr(self.builder, "RAGGED", False)),
                  "rng_seed": es.seed31()},
                 f)
     e = dict(os.environ)
@@ -1054,13 +1071,16 @@ class ModelWorld(engine.World):
       try:
         with ctx.sut("objects:" + label):
           c1 = obj.get_config()
-          if kind == "config":
-            obj2 = cls.from_config(json_norm(c1), custom_objects=co)
-          elif kind == "layer":
-            with self.keras.utils.custom_object_scope(co):
-              obj2 = cls.from_config(c1)
-          else:
-            obj2 = cls.from_config(c1)
+          # The same config dictionary must be usable more than once.
+          given = copy.copy(c1) if kind != "config" else json_norm(c1)
+          for _ in range(2):
+            if kind == "config":
+              obj2 = cls.from_config(given, custom_objects=co)
+            elif kind == "layer":
+              with self.keras.utils.custom_object_scope(co):
+                obj2 = cls.from_config(given)
+            else:
+              obj2 = cls.from_config(given)
           c2 = obj2.get_config()
       except engine.SutError as e:
         out.append(engine.Violation(
